@@ -118,6 +118,14 @@ CHECKS["C11"] = dict(
     ref="C11",
 )
 
+CHECKS["C18"] = dict(
+    technique="Coq proof by exhaustive enumeration (vm_compute, lifted) of every outcome path of run_refurb's effect skeleton translated from source: no temporary file survives; list of write sites translated and pinned; real CLI runs with directory/TMPDIR snapshots and stats-file validation over the full scenario x flag table",
+    category="proof",
+    text="Partial. run_refurb's try/except/finally/with/for skeleton and its effectful calls are translated (fail-closed) into an effect program; Lib/Fs.v interprets it over all outcome choices (every call returns or raises any exception it is known to raise, loops run 0-2 times, with and without --timing-stats) and no_temp_left states that on every path the temporary file is gone; the set of file-system write calls in refurb/*.py is translated and proved to be exactly {mkstemp, unlink, write_text} in main.py. That mypy itself writes only below its cache directory is an assumption; it and the well-formedness of the stats file are decided by execution: 21 scenario x flag combinations through the real CLI with SHA-256 snapshots of the checked tree and a private TMPDIR.",
+    note="Trusted: Coq kernel; the skeleton translator; may_raise summaries in Lib/Fs.v; mypy's writes (execution only).",
+    ref="C18",
+)
+
 NOT_APPLICABLE = {}
 
 
